@@ -43,10 +43,21 @@ func vpVisitCheck(tag string, seg *Segment, n uint64, want []vpXStored, stop int
 // It returns the segment and the documents it must hold.
 func vpStoredVariant(g *vpGen, docs []*vpDoc, mode uint32) (*Segment, []*vpDoc) {
 	seg := vpBuild(docs, mode)
-	switch vpChoice("variant", 4) {
+	switch vpChoice("variant", 5) {
 	case 0:
 		vpReach("C06 built")
 		return seg, docs
+	case 4:
+		// three inputs whose field lists share a prefix only: an _id-only segment,
+		// the batch, and a segment with another field sorting elsewhere; nothing
+		// dropped in the batch (it is eligible for the block-copy path)
+		vpAssume(len(docs) > 0)
+		idOnly := []*vpDoc{{fields: []*vpField{{name: "_id", store: true, value: []byte("i0"), length: 1, terms: []*vpTerm{{term: []byte("i0"), freq: 1}}}}}}
+		third := []*vpDoc{{fields: []*vpField{{name: "_id", store: true, value: []byte("t0"), length: 1, terms: []*vpTerm{{term: []byte("t0"), freq: 1}}},
+			{name: "aa", store: true, value: []byte("w"), length: 1, terms: []*vpTerm{{term: []byte("k"), freq: 1}}}}}}
+		mb, _ := vpMergeBytes([]*Segment{vpBuild(idOnly, 1025), seg, vpBuild(third, 1025)}, []*roaring.Bitmap{nil, nil, nil}, mode)
+		vpReach("C06 merged from three segments with prefix field lists")
+		return vpLoad(mb), append(append([]*vpDoc{idOnly[0]}, docs...), third[0])
 	case 1:
 		vpReach("C06 loaded")
 		return vpLoad(vpPersist(seg)), docs
